@@ -25,8 +25,10 @@
         recover     `recover_unconditional_except_known`: every `recover()` runs whenever its goroutine
                     panics (unguarded, or guarded by the goroutine's own state at a reviewed site), except
                     the listed sites whose guard reads state another goroutine sets.
-        assertions  `unchecked_assertions_reviewed`: every `x.(T)` without comma-ok in lib/action and
-                    lib/query/built_in_command.go is a reviewed site (a new one breaks the obligation).
+        assertions  Csvq/Props/C19Asserts.lean: `assertion_sites_ok` / `assertion_site_safe` — every unchecked `x.(T)` of
+                    lib/query, lib/action, lib/cli, lib/parser, lib/value, lib/json, lib/option is safe by the class of its
+                    guard (type-switch clause, comma-ok, finite set of possible dynamic types from the conversion functions /
+                    the grammar contract of parser.y / typed containers, minus IsNull / nil tests) or is listed one by one.
 
   FULL STATEMENTS that the pinned tree does not meet yet (kept visible; each open site is REPORTED by
   vt/p_c19.py under the stable signature `nilerr:<file>:<function>:<expr>` / `recover:<file>:<function>:<guard>`
@@ -170,57 +172,9 @@ theorem recover_unconditional : Gen.recoverFacts.all RecoverFact.safe = true :=
 theorem processor_recovers :
     Gen.recoverFacts.any (fun f => f.fn == "Processor.execute" && f.safe) = true := by decide
 
-/-! ## (d) unchecked type assertions of the command layer -/
-
-/-- the type assertions without the comma-ok form in lib/action/*.go and lib/query/built_in_command.go as of the
-    reviewed tree, with their number of occurrences per function.  Each follows a conversion whose result type it names
-    (value.ToString / ToInteger / ToFloat / ToBoolean + an IsNull test), an `ok` test of the same assertion on the same
-    path (Calc, ShowFields: the comma-ok tests of F88 come first), a parser error whose concrete type the parser
-    guarantees, or a `case` on the flag name that fixes the value's type (showFlag, SetFlag, ShowObjects).  A NEW
-    assertion, or another occurrence of a listed one, breaks `unchecked_assertions_reviewed` until it is reviewed
-    (F88 calc.go and F89 ShowObjects were unchecked assertions of exactly this kind). -/
-def reviewedAssertions : List (String × Nat) :=
-  [("assert:lib/action/calc.go:Calc:err.(*parser.SyntaxError)", 1),
-   ("assert:lib/action/calc.go:Calc:selectEntity.FromClause.(parser.FromClause)", 1),
-   ("assert:lib/action/calc.go:Calc:selectEntity.SelectClause.(parser.SelectClause)", 1),
-   ("assert:lib/action/calc.go:Calc:v.(parser.Field)", 1),
-   ("assert:lib/action/fields.go:ShowFields:e.(*parser.SyntaxError)", 1),
-   ("assert:lib/action/fields.go:ShowFields:filePath.(parser.Identifier)", 1),
-   ("assert:lib/action/fields.go:ShowFields:q.SelectEntity.(parser.SelectEntity)", 1),
-   ("assert:lib/action/fields.go:ShowFields:q.SelectEntity.(parser.SelectEntity).FromClause.(parser.FromClause)", 1),
-   ("assert:lib/action/fields.go:ShowFields:q.SelectEntity.(parser.SelectEntity).FromClause.(parser.FromClause).Tables[0].(parser.Table)", 1),
-   ("assert:lib/action/fields.go:ShowFields:statements[0].(parser.SelectQuery)", 1),
-   ("assert:lib/action/run.go:LaunchInteractiveShell:e.(*parser.SyntaxError)", 1),
-   ("assert:lib/action/run.go:Run:err.(*parser.SyntaxError)", 1),
-   ("assert:lib/query/built_in_command.go:Chdir:s.(*value.String)", 1),
-   ("assert:lib/query/built_in_command.go:LoadStatementsFromFile:err.(*parser.SyntaxError)", 1),
-   ("assert:lib/query/built_in_command.go:ParseExecuteStatements:err.(*parser.SyntaxError)", 1),
-   ("assert:lib/query/built_in_command.go:ParseExecuteStatements:err.(Error)", 1),
-   ("assert:lib/query/built_in_command.go:ParseExecuteStatements:stmtStr.(*value.String)", 1),
-   ("assert:lib/query/built_in_command.go:Printf:err.(Error)", 1),
-   ("assert:lib/query/built_in_command.go:Printf:formatString.(*value.String)", 1),
-   ("assert:lib/query/built_in_command.go:RemoveFlagElement:i.(*value.Integer)", 1),
-   ("assert:lib/query/built_in_command.go:RemoveFlagElement:s.(*value.String)", 1),
-   ("assert:lib/query/built_in_command.go:SetEnvVar:s.(*value.String)", 1),
-   ("assert:lib/query/built_in_command.go:SetFlag:p.(*value.Boolean)", 1),
-   ("assert:lib/query/built_in_command.go:SetFlag:p.(*value.Float)", 1),
-   ("assert:lib/query/built_in_command.go:SetFlag:p.(*value.Integer)", 1),
-   ("assert:lib/query/built_in_command.go:SetFlag:p.(*value.String)", 1),
-   ("assert:lib/query/built_in_command.go:ShowObjects:p.(*value.Boolean)", 1),
-   ("assert:lib/query/built_in_command.go:ShowObjects:p.(*value.Integer)", 1),
-   ("assert:lib/query/built_in_command.go:ShowObjects:p.(*value.String)", 1),
-   ("assert:lib/query/built_in_command.go:Source:s.(*value.String)", 1),
-   ("assert:lib/query/built_in_command.go:Syntax:s.(*value.String)", 1),
-   ("assert:lib/query/built_in_command.go:showFlag:val.(*value.Boolean)", 10),
-   ("assert:lib/query/built_in_command.go:showFlag:val.(*value.Float)", 1),
-   ("assert:lib/query/built_in_command.go:showFlag:val.(*value.Integer)", 2),
-   ("assert:lib/query/built_in_command.go:showFlag:val.(*value.String)", 15)]
-
-/-- **unchecked_assertions_reviewed.**  Every unchecked type assertion of the command layer (regenerated) that is not
-    inside the matching clause of a type switch is one of the reviewed sites, with no more occurrences than reviewed. -/
-theorem unchecked_assertions_reviewed :
-    Gen.uncheckedAssertions.all (fun f => f.safe || reviewedAssertions.any (fun r => r.1 == f.site && decide (f.count ≤ r.2))) = true := by
-  decide +kernel
+/-! ## (d) unchecked type assertions: Csvq/Props/C19Asserts.lean (every unchecked `x.(T)` of the hand-written packages with its guard
+    class; the earlier per-function counts of lib/action and built_in_command.go with a hand-filled reviewed list are gone: the four
+    assertions of F96 had been IN that list) -/
 
 /-! ## (c) index guards -/
 
